@@ -302,7 +302,9 @@ func (parameter *Parameter) SerializationMethod() (*SerializationMethod, error) 
 		if style == "" {
 			style = SerializationForm
 		}
-		explode := true
+		// "When style is form, the default value is true. For all other styles, the default value is
+		// false." (deepObject is defined with explode only)
+		explode := style == SerializationForm || style == SerializationDeepObject
 		if parameter.Explode != nil {
 			explode = *parameter.Explode
 		}
